@@ -422,7 +422,9 @@ class BashLanguage:
     @staticmethod
     def setupFingerprint(spec, env, trace):
         env["BOB_CWD"] = BashLanguage.__munge(env["BOB_CWD"])
-        args = [getBashPath()]
+        # Never read ~/.bashrc. Bash does that for "-c" commands if stdin is
+        # a network connection (e.g. ssh without tty).
+        args = [getBashPath(), "--norc"]
         if trace: args.append("-x")
         args.extend(["-c", spec.fingerprintScript])
         return args
